@@ -2,7 +2,8 @@
 (3) falsification by partial pinning.  All z3 API calls happen in the main thread; solver processes run 16-wide."""
 import z3, random, time, tempfile, shutil, concurrent.futures, fractions
 import smt
-from symex import Obligation, QForall
+from symex import Obligation
+from values import QForall
 from values import is_z3
 
 
